@@ -12,6 +12,7 @@ exactly one failure for the sender; well-formed messages round-trip and an indep
 reads and writes them identically.
 """
 import asyncio
+import ipaddress
 import json
 import re
 import os
@@ -908,6 +909,21 @@ GOOD_SENDERS = {('9.9.0.9', 5000), ('9.9.1.9', 5001), ('7.7.7.7', 7000)}
 USABLE_SENDERS = {('5.6.7.8', 4445), ('9.9.0.9', 5000), ('9.9.1.9', 5001), ('1.2.3.4', 4444), ('200.1.1.1', 65535), ('7.7.7.7', 7000),
                   ('9.9.2.9', 5002), ('9.9.3.9', 5003), ('9.9.4.9', 5004), ('5.6.7.9', 4446)}
 KNOWN_IDS = {constants.generate_id(i + 100).hex() for i in range(5)}
+_NOT_PUBLIC = [ipaddress.ip_network(n) for n in (
+    '0.0.0.0/8', '10.0.0.0/8', '100.64.0.0/10', '127.0.0.0/8', '169.254.0.0/16', '172.16.0.0/12', '192.0.0.0/29', '192.0.0.170/31',
+    '192.0.2.0/24', '192.88.99.0/24', '192.168.0.0/16', '198.18.0.0/15', '198.51.100.0/24', '203.0.113.0/24',
+    '224.0.0.0/4', '240.0.0.0/4')]
+
+
+def sender_usable(sender):
+    """can the datagram's source be a contact?  (independent statement of the rule: a public IPv4 address -- not
+    loopback, private, link-local, carrier-grade NAT, documentation, multicast or reserved space -- and a udp port
+    1024..65535)"""
+    try:
+        ip = ipaddress.IPv4Address(sender[0])
+    except ValueError:
+        return False
+    return 1024 <= sender[1] <= 65535 and not any(ip in n for n in _NOT_PUBLIC)
 
 
 # ------------------------------------------------------------------------------------------------
@@ -1099,7 +1115,7 @@ def check_datagram(ctx, data, sender, kind, expect=None, prefix=None, expect_pee
     if 'msg' in impl and impl['msg']['cls'] == 'request':
         # handle_request_datagram: no contact -> ignored; valid -> exactly one response; otherwise exactly one error
         # datagram and one failure.  The contact is the datagram's source address.
-        usable = tuple(sender) in USABLE_SENDERS
+        usable = sender_usable(sender)
         want = [] if not usable else ['response'] if m['request_valid'] else ['error']
         run.count('request ' + ('ignored (no usable contact)' if not usable else 'served' if m['request_valid'] else 'answered with an error'))
         run.compare('C17.handle_request.reply', case, obs['replies'], want)
@@ -1166,7 +1182,7 @@ def contact_address(msg, sender):
     """the contact a request is attributed to: the datagram's SOURCE address (also when the node id it carries is
     that of a routing-table contact living elsewhere); None when that address cannot be a contact (make_kademlia_peer
     refuses a non-public IPv4 address or a udp port below 1024): no reply is possible then"""
-    return tuple(sender) if tuple(sender) in USABLE_SENDERS else None
+    return tuple(sender) if sender_usable(sender) else None
 
 
 def canon_msg(m):
